@@ -18,7 +18,7 @@ var prefixStubs []struct {
 var suffixStubs = map[string]stubFn{} // intrinsics by bare name (".vfU64")
 var pkgInitStubs = map[string]func(ex *Exec, pkg *ssa.Package){}
 
-func regStub(name string, h stubFn)   { exactStubs[name] = h }
+func regStub(name string, h stubFn) { exactStubs[name] = h }
 func regPrefix(prefix string, h stubFn) {
 	prefixStubs = append(prefixStubs, struct {
 		prefix string
@@ -173,6 +173,18 @@ func init() {
 	suffixStubs["vfUF64"] = func(ex *Exec, fn *ssa.Function, args []Value) Value {
 		name := ex.argString(args[0])
 		return UF(name, 64, ex.variadicTerms(args[1])...)
+	}
+	suffixStubs["vfAnd"] = func(ex *Exec, fn *ssa.Function, args []Value) Value {
+		return AndB(args[0].(*Term), args[1].(*Term))
+	}
+	suffixStubs["vfOr"] = func(ex *Exec, fn *ssa.Function, args []Value) Value {
+		return OrB(args[0].(*Term), args[1].(*Term))
+	}
+	suffixStubs["vfImp"] = func(ex *Exec, fn *ssa.Function, args []Value) Value {
+		return Implies(args[0].(*Term), args[1].(*Term))
+	}
+	suffixStubs["vfIte"] = func(ex *Exec, fn *ssa.Function, args []Value) Value {
+		return Ite(args[0].(*Term), args[1].(*Term), args[2].(*Term))
 	}
 	suffixStubs["vfSymbolic"] = func(ex *Exec, fn *ssa.Function, args []Value) Value {
 		return Bool(ex.concrete == nil)
